@@ -5,6 +5,7 @@ import (
 	"go/token"
 	"go/types"
 	"math/big"
+	"strings"
 )
 
 // Model of go/constant for the Int, String and Bool kinds (exact, unbounded
@@ -83,6 +84,27 @@ func registerConstModel(e *Engine) {
 	}
 	H["go/constant.MakeUint64"] = func(st *State, a []Value) Value {
 		return mkConstInt(st.mathInt(a[0].(*Term), types.Typ[types.Uint64]))
+	}
+	// MakeFromLiteral on constant arguments: integers and characters exactly,
+	// the other kinds as an opaque value that remembers its literal.
+	H["go/constant.MakeFromLiteral"] = func(st *State, a []Value) Value {
+		lt, ok1 := a[0].(*Term)
+		tt, ok2 := a[1].(*Term)
+		if !ok1 || !ok2 || !lt.Const || !tt.Const || tt.CI == nil {
+			st.unsupported("constant.MakeFromLiteral on non-constant arguments")
+		}
+		tok := token.Token(tt.CI.Int64())
+		if tok == token.INT {
+			if v, ok := new(big.Int).SetString(strings.ReplaceAll(lt.CS, "_", ""), 0); ok {
+				return mkConstInt(IntT(v))
+			}
+		}
+		st.E.objCtr++
+		ty := constFloatT
+		if tok == token.STRING || tok == token.CHAR {
+			ty = constUnknownT
+		}
+		return &IfaceV{T: ty, V: &OpaqueV{Name: "lit:" + tok.String() + ":" + lt.CS, ID: st.E.objCtr}}
 	}
 	H["go/constant.MakeBool"] = func(st *State, a []Value) Value { return &IfaceV{T: constBoolT, V: a[0]} }
 	H["go/constant.MakeString"] = func(st *State, a []Value) Value { return &IfaceV{T: constStrT, V: a[0]} }
@@ -273,6 +295,11 @@ func registerConstModel(e *Engine) {
 				// exact quotient: an Int when divisible, else a (opaque) Float
 				if st.Branch(Eq(IntTRem(xt, yt), IntT64(0))) {
 					return mkConstInt(IntTDiv(xt, yt))
+				}
+				if xt.Const && yt.Const {
+					// an exact rational: opaque to the solver, but it remembers its value
+					st.E.objCtr++
+					return &IfaceV{T: constFloatT, V: &OpaqueV{Name: "lit:RAT:" + xt.CI.String() + "/" + yt.CI.String(), ID: st.E.objCtr}}
 				}
 				return &IfaceV{T: constFloatT, V: IntT64(0)}
 			}
